@@ -6,6 +6,7 @@ package c08
 import (
 	"os"
 	"testing"
+	"time"
 
 	"verif/harness/gobatch"
 	"verif/harness/vlib"
@@ -26,6 +27,19 @@ func TestMain(m *testing.M) {
 	rec.Assume("oracle: gc toolchain, generated module with `go 1.18`, values formatted by the same compiled recorder on both sides")
 	rec.Assume("run-time errors are compared by class (index, slicebounds, nilmap, nilptr, makesize, unhashable, uncomparable), not by message text")
 	rec.Assume("the capacity chosen by append when it must grow is not specified by Go: after such an append the generated program only observes the slice up to len and clamps the capacity before appending again")
+	rec.Assume("EvalTimeout of the interpreter side raised to 5 min: on the shared, heavily loaded machine a fresh process needs up to 30 s before its first evaluation; the timeout stays a safety net, never an oracle")
+	gobatch.EvalTimeout = 5 * time.Minute
+	// exclusions by construction, each only while the finding is listed as "known"
+	Avoid.NonInt = rec.Known("F-C08-1")
+	Avoid.CopyResult = rec.Known("F-C08-2")
+	Avoid.NilArrayCap = rec.Known("F-C08-3")
+	Avoid.RangePtrArray = rec.Known("F-C08-4")
+	Avoid.IdentityOp = rec.Known("F-C08-5")
+	Avoid.NilIfaceKey = rec.Known("F-C08-6")
+	Avoid.MakeLenCap = rec.Known("F-C08-7")
+	Avoid.NilDerefValue = rec.Known("F-C08-8")
+	Avoid.EllipsisHint = rec.Known("F-C08-9")
+	OnExcluded = func(id string) { rec.Excluded(id) }
 	os.Exit(vlib.Main(m, rec))
 }
 
